@@ -60,7 +60,7 @@ PLAIN = {
 }
 SPEC.update(PLAIN)
 VARIANTS = {"opt": ["None", "Some"], "res": ["Ok", "Err"]}
-SPECIAL = (O + "filter", O + "get_or_insert_with")
+SPECIAL = (O + "filter", O + "get_or_insert_with", O + "insert")
 
 
 def _callee(f):
@@ -369,6 +369,17 @@ def _lower_special(B, bi, nm, done):
         unreachable = B.new_block([], {"k": "unreachable", "ln": ln}, mark)
         b["stmts"].append(_assign(_place(d, "isize"), {"k": "discr", "p": copy.deepcopy(sp)}, ln))
         b["term"] = {"k": "switch", "d": _mv(d, "isize"), "dty": "isize", "targets": [[0, none_b], [1, call_b]], "otherwise": unreachable, "ln": ln, "was_call": nm}
+        return True
+    if nm == O + "insert":
+        # *self = Some(value); &mut (*self as Some).0
+        slf, val = args[0], args[1]
+        if slf.get("k") not in ("move", "copy"):
+            return False
+        sp = _place(slf["p"]["l"], "std::option::Option<%s>" % T_, list(slf["p"]["proj"]) + [{"k": "deref"}])
+        pay = _place(sp["l"], T_, list(sp["proj"]) + [{"k": "downcast", "v": 1, "name": "Some"}, {"k": "field", "i": 0, "name": "0", "of": OPT, "ty": T_}])
+        b["stmts"].append(_assign(copy.deepcopy(sp), _adt(OPT, "Some", 1, [val]), ln))
+        b["stmts"].append(_assign(copy.deepcopy(D), {"k": "ref", "mut": True, "p": pay}, ln))
+        b["term"] = {"k": "goto", "t": C, "ln": ln, "was_call": nm}
         return True
     if nm == O + "get_or_insert_with":
         # if (*self) is None { *self = Some(f()) }; &mut (*self as Some).0
